@@ -46,7 +46,10 @@ impl IoError {
     #[verifier::external_body]
     pub fn kind(&self) -> (r: ErrorKind) ensures (r is NotFound) == self.not_found { unimplemented!() }
 }
+pub struct VarError { pub e: Ghost<int> }
 pub mod std {
+    pub mod env { pub use super::super::VarError; }
+    pub mod result { pub use core::result::Result; }
     pub mod io {
         pub type Error = super::super::IoError;
         pub type Result<T> = core::result::Result<T, super::super::IoError>;
@@ -279,5 +282,18 @@ pub proof fn lemma_nondir_has_no_children(fs: FsState, d: PathV, p: PathV)
     if fs.has(p) {
         if p.len() == d.len() + 1 { assert(p.drop_last() =~= d); }
         else { assert(strictly_under(d, p.drop_last())); lemma_nondir_has_no_children(fs, d, p.drop_last()); }
+    }
+}
+// every prefix of an existing path exists (and is a directory when it is a strict prefix)
+pub proof fn lemma_prefixes_exist(fs: FsState, p: PathV, q: PathV)
+    requires fs.wf(), fs.has(p), is_prefix(q, p)
+    ensures fs.has(q), q.len() < p.len() ==> fs.node(q) is Dir
+    decreases p.len()
+{
+    if q.len() == p.len() { assert(q =~= p); }
+    else {
+        assert(is_prefix(q, p.drop_last()));
+        lemma_prefixes_exist(fs, p.drop_last(), q);
+        if q.len() == p.len() - 1 { assert(q =~= p.drop_last()); }
     }
 }
